@@ -60,7 +60,7 @@ theorem dispatch_off_by_one_witness :
 /-- a dispatch loop has the shape of Model/Pool for the job-count expression `jobs` -/
 def poolOk (p : Gen.Pool) (jobs : String) : Bool :=
   p.loopCond == "recvNum<" ++ jobs && p.guard == "recvNum+corNum<" ++ jobs && p.refillIdx == ["recvNum+corNum"] &&
-  p.initBound == "<corNum" && p.initIdx == ["i"] && p.clamp == jobs ++ "<corNum=>corNum=" ++ jobs && p.incs == 2
+  p.initBound == "<corNum" && p.initIdx == ["i"] && p.clamp == jobs ++ "<corNum=>corNum=" ++ jobs && p.incs == 2 && p.exits == 0
 
 /-- the five dispatch loops of the current source are instances of the scheme `dispatch_all` is about -/
 theorem pools_shape :
